@@ -1,8 +1,9 @@
 # -*- coding: utf-8 -*-
 """Canonical renderings of the DNS record-data objects; they coincide character for character with
 `lean/CpModel/Dns/Canon.lean`.  `canon.Unmodelled` is raised for what the Lean model declares outside
-its boundary: labels that leave the ASCII fast path of the `idna` codec, and integers whose
-asn1crypto key size comes out of a float logarithm too close to a power of 256."""
+its boundary: labels that leave the ASCII fast path of the `idna` codec, and EC coordinates whose
+asn1crypto point size comes out of a float logarithm too close to a power of 256 (RSA moduli and DSA
+primes are sized with bit_length() and are inside the model whatever their value)."""
 import calendar
 
 from harness import core
@@ -84,12 +85,8 @@ def c_key(key):
     kt = key.key_type
     p = key.params
     if kt == Authentication.RSA:
-        if float_risk(p.modulus):
-            raise Unmodelled('float key size')
         return 'Rsa({},{})'.format(p.public_exponent, p.modulus)
     if kt == Authentication.DSS:
-        if float_risk(p.prime):
-            raise Unmodelled('float key size')
         return 'Dsa({},{},{},{})'.format(p.prime, p.generator, p.order, p.public_key_value)
     if kt == Authentication.ECDSA:
         if p.named_group.name not in GROUP_INDEX:
